@@ -246,6 +246,20 @@ def p_join(T, out):
         out.append("join-before-start?!")
     except RuntimeError:
         out.append("join-before-start-RuntimeError")
+    res = []
+    holder = []
+
+    def selfjoin():
+        try:
+            holder[0].join()
+            res.append("joined-self?!")
+        except RuntimeError:
+            res.append("join-self-RuntimeError")
+    t3 = T.Thread(target=selfjoin)
+    holder.append(t3)
+    t3.start()
+    t3.join()
+    out.append(res)
 
 
 PROGRAMS = [p_lock_timeout, p_rlock, p_condition, p_event, p_semaphore, p_queue, p_full_queue, p_timer, p_join]
